@@ -94,6 +94,11 @@ func genCaseC02(t *rapid.T) *c02Case {
 	base.Doc, base.Vars = d, vars
 	base.Op = d.Ops[0].Name
 	base.LateRegister = rapid.IntRange(0, 4).Draw(t, "lateRegister") == 0
+	if rapid.IntRange(0, 3).Draw(t, "tightDepth") == 0 {
+		// the depth limit set to what the request needs: every strategy and every list representation
+		// has to count the levels alike
+		base.TightDepth = rapid.IntRange(1, 2).Draw(t, "tightDepthPlus")
+	}
 	cc := &c02Case{Base: base}
 	if rapid.IntRange(0, 5).Draw(t, "defective") == 0 {
 		kind := rapid.SampledFrom([]string{"omitted-required-arg", "undeclared-arg", "unknown-field"}).Draw(t, "defectKind")
